@@ -171,6 +171,11 @@ def commitsUnderWriteLock (p : List LockEv) : Bool :=
   marksUnder .commit (fun held => held.any (fun h => decide (h.1 = Lock.batch)) &&
     (held.any (fun h => decide (h = (Lock.hp, Mode.W))) || held.any (fun h => decide (h = (Lock.ts, Mode.W))))) [] p
 
+/-- stronger: the commit happens while `txhashset` is write-held (what the commit-protocol model
+assumes: a reader holding `txhashset.read()` can never overlap a publication) -/
+def commitsUnderTsWrite (p : List LockEv) : Bool :=
+  marksUnder .commit (fun held => held.any (fun h => decide (h = (Lock.ts, Mode.W)))) [] p
+
 /-- a callback into `self.adapter` is made with no chain lock held -/
 def callbacksUnlocked (p : List LockEv) : Bool :=
   marksUnder .callback (fun held => held.isEmpty) [] p
